@@ -106,6 +106,7 @@ type pending struct {
 	finished  bool
 	local     bool // expected to fail before anything is written
 	arrived   bool // local: the request showed up on the wire all the same
+	errText   string
 	res       callResult
 }
 
